@@ -221,6 +221,24 @@ def w_objects(arg):
             rec.finding('object', 'false-crc-warning', case, warned[0])
         if bytes(a) != data or (b2 is not None and bytes(b2) != data):
             rec.finding('object', 'armored-vs-binary-load/' + label, case, 'loading the armored text and loading the binary give different objects')
+        # input handed over as the caller's bytearray (binary and armored): it is the caller's, and loading it again gives the same object
+        if label != 'SIGNED MESSAGE':
+            for what, src in (('binary', data), ('armored', text.encode('utf-8'))):
+                buf = bytearray(src)
+                try:
+                    with warnings.catch_warnings():
+                        warnings.simplefilter('ignore')
+                        o1 = cls.from_blob(buf)
+                        kept = bytes(buf) == src
+                        o2 = cls.from_blob(buf)
+                    o1 = o1[0] if isinstance(o1, tuple) else o1
+                    o2 = o2[0] if isinstance(o2, tuple) else o2
+                    if not kept:
+                        rec.finding('object', 'caller-bytearray-modified/' + what, case, '%s input of %d octets has %d octets after from_blob' % (what, len(src), len(buf)))
+                    elif bytes(o1) != data or bytes(o2) != data:
+                        rec.finding('object', 'second-load-differs/' + what, case, '')
+                except Exception as e:   # noqa
+                    rec.finding('object', 'bytearray-load-exception/%s/%s' % (what, label), case, repr(e))
         # the cleartext part travels in the transport's line-ending convention (RFC 4880 7.1): compare modulo CRLF/LF
         if label == 'SIGNED MESSAGE' and a.message.replace('\r\n', '\n') != obj.message.replace('\r\n', '\n'):
             rec.finding('object', 'cleartext-text', case, 'text differs after reload: %r' % (a.message[-30:],))
@@ -296,6 +314,24 @@ def w_corrupt(arg):
                 reported = True
             if not reported:
                 rec.finding('corruption', 'not-reported/crc-field-' + special, case, 'checksum field %r (true %r) loaded silently' % (special, text[crcpos[0]:crcpos[0] + 4]))
+    # the '=' that opens the checksum line turned into a base64 character (the line then looks like one more body line)
+    if part == 0 and crcpos:
+        for alt in ('A', 'z', '+', '9'):
+            bad = text[:crcpos[0] - 1] + alt + text[crcpos[0]:]
+            case = {'kind': 'corrupt-crc-marker', 'n': n, 'fill': kind, 'alt': alt}
+            rec.case(('corrupt-crc-marker', n, kind, alt), True, ('corrupt/crc-marker',), {'payload_len': n, 'where': 'crc-marker', 'char': '=->' + alt})
+            try:
+                with warnings.catch_warnings(record=True) as w:
+                    warnings.simplefilter('always')
+                    back = Blob.from_blob(bad)
+                reported = any('crc' in str(x.message).lower() for x in w) or back.data != data
+                # (a reader that takes the line for body text and then delivers another payload has also "reported" nothing: flagged below)
+                silent_same = (not any('crc' in str(x.message).lower() for x in w)) and back.data == data
+                silent_other = (not any('crc' in str(x.message).lower() for x in w)) and back.data != data
+            except Exception:   # noqa
+                silent_same = silent_other = False
+            if silent_same or silent_other:
+                rec.finding('corruption', 'not-reported/crc-marker', case, 'checksum line without its "=" loaded silently (%s payload)' % ('same' if silent_same else 'different'))
     for pi, (pos, where) in enumerate(positions):
         if pi % nparts != part:
             continue
@@ -354,6 +390,9 @@ def replay(case):
     elif k == 'corrupt':
         r = w_corrupt((case['n'], case['fill'], 0, 1))
         r.findings = [f for f in r.findings if f['case'].get('pos') == case['pos'] and f['case'].get('alt') == case['alt']]
+    elif k == 'corrupt-crc-marker':
+        r = w_corrupt((case['n'], case['fill'], 0, 1))
+        r.findings = [f for f in r.findings if f['case'].get('kind') == 'corrupt-crc-marker' and f['case'].get('alt') == case['alt']]
     elif k == 'corrupt-crc-field':
         r = w_corrupt((case['n'], case['fill'], 0, 1))
         r.findings = [f for f in r.findings if f['case'].get('special') == case['special']]
